@@ -2,8 +2,8 @@ package rules
 
 import (
 	"go/token"
-	"strings"
 	"go/types"
+	"strings"
 
 	"golang.org/x/tools/go/ssa"
 
@@ -16,7 +16,7 @@ func init() {
 			"(ready) IsReadyForMessages is true only if the channel is not paused, ready > 0 and in-flight < ready; (notready) on the not-ready edge every message source of the pump's select is nil, and readiness is re-evaluated on every loop iteration; " +
 			"(count) in-flight counters move only on the success side of their transition (send, FIN, REQ, timeout of the owner); (cls) CLS forces RDY 0 and later RDYs are ignored; " +
 			"(topicpause) a paused topic's pump selects on nil queues after every pause/update token; publishing never tests the pause flag; (wake) pause/unpause store the flag and then wake every consumer / the pump.",
-		NotDecided: "the running bound in-flight <= RDY under concurrent Empty (F8, counter reset vs FIN); the 'within the output-buffer timeout' timing clause.",
+		NotDecided:  "the running bound in-flight <= RDY under concurrent Empty (F8, counter reset vs FIN); the 'within the output-buffer timeout' timing clause.",
 		Assumptions: []string{"atomic loads/stores of ReadyCount, InFlightCount, paused are sequentially consistent (sync/atomic)"},
 	}
 	reg("C03.rdy", "GUARD", "RDY: SetReadyCount only for 0 <= count <= MaxRdyCount; reject arm is a fatal E_INVALID", 3, c03rdy)
@@ -384,7 +384,12 @@ func c03notready(c *an.Ctx) {
 	}
 }
 
-func c03count(c *an.Ctx) {
+func c03count(c *an.Ctx) { c03countOf(c, true) }
+
+// c13count: the statistics property needs every counter's delta, not only the in-flight count.
+func c13count(c *an.Ctx) { c03countOf(c, false) }
+
+func c03countOf(c *an.Ctx, onlyInFlight bool) {
 	fn := c.Fn("nsqd", "(*Channel).processInFlightQueue")
 	pop := c.Fn("nsqd", "(*Channel).popInFlightMessage")
 	put := c.Fn("nsqd", "(*Channel).put")
@@ -437,7 +442,9 @@ func c03count(c *an.Ctx) {
 	}
 	// and never before winning the pop
 	q2 := &an.PathQ{Fn: fn, StartEntry: true,
-		Sink:    func(in ssa.Instruction, _ *an.PathState) bool { return isInvokeOn(in, "Consumer", "TimedOutMessage", nil) },
+		Sink: func(in ssa.Instruction, _ *an.PathState) bool {
+			return isInvokeOn(in, "Consumer", "TimedOutMessage", nil)
+		},
 		CutEdge: func(e an.Edge, _ *an.PathState) bool { return an.EdgeIn(e, succ) }}
 	w, f = q2.Find()
 	c.Check(!f, fn, "TimedOutMessage only after winning the pop", fn.Pos(), "", "TimedOutMessage is reachable without a successful popInFlightMessage: a message that was FINished concurrently is counted twice")
@@ -478,6 +485,9 @@ func c03count(c *an.Ctx) {
 			if got[k] != v {
 				same = false
 			}
+		}
+		if onlyInFlight {
+			same = got["InFlightCount"] == spec.deltas["InFlightCount"]
 		}
 		c.Check(same, m, "counter deltas", m.Pos(), "", sprintf("expected atomic deltas %v, found %v", spec.deltas, got))
 	}
@@ -628,7 +638,9 @@ func c03topicpause(c *an.Ctx) {
 					// reached the select without evaluating IsPaused: acceptable only if sources are nil
 					return sink(in, ps)
 				},
-				Cut: func(in ssa.Instruction, ps *an.PathState) bool { return isCallToOn(in, isPaused, nil) || firstSelect(in, ps) }}
+				Cut: func(in ssa.Instruction, ps *an.PathState) bool {
+					return isCallToOn(in, isPaused, nil) || firstSelect(in, ps)
+				}}
 			w, found := q.Find()
 			if found {
 				c.Bad(fn, "token "+fname+" re-evaluates pause", sel.Pos(), "after a "+fname+" token the pump can return to the select with live queues without re-reading the pause flag", w)
@@ -646,7 +658,9 @@ func c03topicpause(c *an.Ctx) {
 			}
 			q := &an.PathQ{Fn: fn, StartEdges: st.Chosen, AllConsts: true,
 				Sink: func(in ssa.Instruction, ps *an.PathState) bool { return in == ssa.Instruction(sel) && sink(in, ps) },
-				Cut:  func(in ssa.Instruction, ps *an.PathState) bool { return isCallToOn(in, isPaused, nil) || firstSelect(in, ps) }}
+				Cut: func(in ssa.Instruction, ps *an.PathState) bool {
+					return isCallToOn(in, isPaused, nil) || firstSelect(in, ps)
+				}}
 			w, found := q.Find()
 			if found {
 				c.Bad(fn, "start re-evaluates pause", ssel.Pos(), "after Start() the pump arms its queues without reading the pause flag: a topic paused before it was started (restored from metadata, or paused while GetTopic was still pre-creating channels) feeds its channels anyway", w)
